@@ -169,6 +169,8 @@ pub fn family_cfg(family: &str, rng: &mut Rng) -> GenCfg {
             c.n_sets = (2, 4);
             c.rules = (1, 3);
             c.depth = 2;
+            c.p_ctx = 25;
+            c.p_eoi_ctx = 10;
             c.w_act = [1, 2, 8, 1];
             c.p_switch = 50;
             c.p_unnamed = 0;
@@ -373,7 +375,9 @@ impl<'a> Gen<'a> {
         } else {
             Fin::Return(self.rng.below(4) as u32)
         };
-        let reset = !matches!(fin, Fin::Err(_)) && self.rng.chance(self.cfg.p_reset, 100);
+        // (an action may also reset the match and then return an error: the error then points at
+        // the start of the *current*, i.e. emptied, match)
+        let reset = self.rng.chance(self.cfg.p_reset, 100);
         Outcome { reset, switch, fin }
     }
 
@@ -1232,6 +1236,11 @@ fn gen_scope_spec(g: &mut Gen) -> Spec {
             let next = names[(i + 1) % names.len()].clone();
             if x_visible {
                 entries.push(Entry::Rule(mk(Re::cat(Re::var("x"), Re::Chr('c')), Some(next.clone()), 1)));
+                // the same syntactic right context `> $x` in every rule set, each time with that rule
+                // set's own binding of `x`
+                let mut r = mk(Re::Chr('a'), None, 5);
+                r.ctx = Some(Re::var("x"));
+                entries.push(Entry::Rule(r));
             }
             if has_y {
                 entries.push(Entry::Rule(mk(Re::plus(Re::var("y")), None, 2)));
